@@ -66,6 +66,8 @@ pub enum PG {
     Conda(Vec<Vec<PG>>),
     Condu(Vec<Vec<PG>>),
     Onceo(Vec<PG>),
+    /// `onceo { c1, c2, .. }` with several comma-separated entries: `Conj::from_conjunctions` over the clauses
+    OnceoC(Vec<Vec<PG>>),
     Dfs(Vec<PG>),
     /// `dfs { c1, c2, .. }`: several comma-separated top-level clauses (`DFSConj::from_conjunctions`)
     DfsC(Vec<Vec<PG>>),
@@ -161,6 +163,7 @@ fn shrink_goal(g: &PG) -> Vec<Vec<PG>> {
         PG::Disj(gs) => list(gs, &|v| PG::Disj(v)),
         PG::Dfs(gs) => list(gs, &|v| PG::Dfs(v)),
         PG::Onceo(gs) => list(gs, &|v| PG::Onceo(v)),
+        PG::OnceoC(cs) => clauses(cs, &|v| PG::OnceoC(v)),
         PG::Closure(gs) => list(gs, &|v| PG::Closure(v)),
         PG::Project(xs, gs) => {
             let xs = xs.clone();
@@ -239,6 +242,10 @@ impl PG {
             PG::Onceo(gs) => {
                 out.push_str("onceo ");
                 toks_goals(gs, out)
+            }
+            PG::OnceoC(cs) => {
+                out.push_str("onceoc ");
+                toks_clauses(cs, out)
             }
             PG::Dfs(gs) => {
                 out.push_str("dfs ");
@@ -350,6 +357,7 @@ impl PG {
             "conda" => PG::Conda(clauses(t)),
             "condu" => PG::Condu(clauses(t)),
             "onceo" => PG::Onceo(goals(t)),
+            "onceoc" => PG::OnceoC(clauses(t)),
             "dfs" => PG::Dfs(goals(t)),
             "fresh" => PG::Fresh(Box::new(PG::parse(t))),
             "anyo" => PG::Anyo(Box::new(PG::parse(t))),
@@ -475,6 +483,11 @@ pub fn build<K: Kind>(g: &PG, vars: &mut Vars) -> K {
         PG::Onceo(gs) => {
             let v: Vec<Goal<DU, DE>> = gs.iter().map(|x| build::<Goal<DU, DE>>(x, vars)).collect();
             K::from_bfs(proto_vulcan::operator::onceo(OperatorParam::new(&[&v[..]])))
+        }
+        PG::OnceoC(cs) => {
+            let v: Vec<Vec<Goal<DU, DE>>> = cs.iter().map(|c| c.iter().map(|x| build::<Goal<DU, DE>>(x, vars)).collect()).collect();
+            let r: Vec<&[Goal<DU, DE>]> = v.iter().map(|c| &c[..]).collect();
+            K::from_bfs(proto_vulcan::operator::onceo(OperatorParam::new(&r)))
         }
         PG::Dfs(gs) => {
             let v: Vec<DFSGoal<DU, DE>> = gs.iter().map(|x| build::<DFSGoal<DU, DE>>(x, vars)).collect();
